@@ -482,6 +482,17 @@ def doc_faults(rng, rule_doc, macro_files, rule_rel="rule.yaml", max_per_kind=6,
             if len(path) >= 2 and isinstance(path[-1], int) and _is_instr_item_pos(path[1:]) and isinstance(node, (str, dict)):
                 item_paths.append((path, node))
         rng.shuffle(item_paths)
+        # `times` of another type than int / mapping (bool excluded: see DESIGN section 5, observation 4a)
+        odd_times = [("str", "2"), ("float", 2.5), ("list", [2]), ("minstr", {"min": "1", "max": 2})]
+        for path, node in item_paths[:3]:
+            if isinstance(node, str) and node.startswith(("&",)):
+                continue
+            shape = _item_shape(node)
+            for (lab, tv) in odd_times:
+                for spelling in ("inner", "sibling"):
+                    new = _with_times(node, tv, spelling)
+                    if new is not None and room(f"times_type:{lab}:{spelling}"):
+                        add(f"times_type:{lab}:{spelling}:{shape}@{_p(path)}", _edit(rule_doc, path, new), klass="times_type")
         bad_times = [
             ("negative:int", -1), ("negative:int", -3), ("negative:min", {"min": -1, "max": 2}), ("negative:max", {"min": 0, "max": -1}),
             ("negative:both", {"min": -2, "max": -1}), ("inverted", {"min": 3, "max": 1}), ("inverted", {"min": 2, "max": 0}),
